@@ -40,7 +40,7 @@ VARIABLES script,  \* the environment's choices (constant during a behaviour)
           ri,      \* index of the next record of the current message
           phase,   \* "idle" (between messages) | "msg" (inside message mi) | "exited"
           c        \* the client: record of incremental, expectingSoa, deleteMode, done, serial,
-                   \*   first, txnOpen, working, zone, err, why
+                   \*   first, txnOpen, working, zone, err, why, pending
 vars == <<script, mi, ri, phase, c>>
 
 ---------------------------------------------------------------------------
@@ -157,7 +157,7 @@ Ref(s) ==
 ClientInit(s) ==
     [incremental |-> (s.req = "ixfr"), expectingSoa |-> FALSE, deleteMode |-> FALSE, done |-> FALSE,
      serial |-> s.base, first |-> <<>>, txnOpen |-> FALSE, working |-> {}, zone |-> s.zone0,
-     err |-> FALSE, why |-> ""]
+     err |-> FALSE, why |-> "", pending |-> {}]
 
 Msg == script.msgs[mi]
 Rec == Msg.rrs[ri]
@@ -203,7 +203,9 @@ FinalSoa ==
     /\ HaveRec /\ ~c.done /\ IsApexSoa(Rec) /\ IsFinal(Rec)
     /\ IF c.expectingSoa THEN Raise("malformed")                       \* SOA(T) SOA(T): empty IXFR
        ELSE IF c.incremental /\ c.serial # Rec[4] THEN Raise("serial")   \* chain did not reach T
-       ELSE IF ri < Len(Msg.rrs) THEN Raise("surplus")
+       ELSE IF ri < Len(Msg.rrs)                                         \* refused BEFORE committing; `pending` only
+       THEN c' = [c EXCEPT !.err = TRUE, !.why = "surplus",              \* remembers what was about to be committed
+                           !.pending = AddRec(c.working, Rec)]
        ELSE LET w == AddRec(c.working, Rec) IN
             c' = [c EXCEPT !.deleteMode = NextDeleteMode, !.working = w, !.zone = w, !.txnOpen = FALSE, !.done = TRUE]
     /\ Step
